@@ -491,6 +491,10 @@ pub open spec fn item_matches(m: Message, it: SItem) -> bool {
 
 // ---- the codec (src/codec/zmq_codec.rs) ----
 //@@ consts src/codec/zmq_codec.rs
+// asynchronous-codec's default `decode_eof` (leftover octets at end of input are an error; nothing but what `decode`
+// yields is ever yielded) and default Encoder methods are assumptions: an override is code no contract reads
+//@@ closed-impl src/codec/zmq_codec.rs :: impl Decoder for ZmqCodec :: decode
+//@@ closed-impl src/codec/zmq_codec.rs :: impl Encoder for ZmqCodec :: encode
 //@@ consts src/codec/command.rs
 //@ item src/codec/zmq_codec.rs :: struct Frame
 //@ end
